@@ -74,6 +74,20 @@ def run_bounded(prop, name, tier, seed):
                 "stderr": (getattr(p, "stderr", "") or "")[-2000:] if "p" in dir() else ""}
 
 
+def watchdog(seconds):
+    """a check never hangs: after `seconds` it reports a checker error (exit 3) with the stacks of all threads"""
+    import faulthandler
+    import signal
+
+    def fire(signum, frame):
+        sys.stdout.flush()
+        print(f"CHECKER-ERROR: no verdict within {seconds}s (watchdog); thread stacks follow on stderr", flush=True)
+        faulthandler.dump_traceback(all_threads=True)
+        os._exit(3)
+    signal.signal(signal.SIGALRM, fire)
+    signal.alarm(seconds)
+
+
 def main():
     ap = argparse.ArgumentParser()
     ap.add_argument("--property")
@@ -85,6 +99,7 @@ def main():
     if a.replay:
         return replay(a.replay)
     seed = int(os.environ.get("VERIF_SEED", "0") or 0)
+    watchdog(int(os.environ.get("PYVC_WATCHDOG_S", "0") or 0) or (2400 if a.tier == "quick" else 6 * 3600))
     return check_property(a.property, a.tier, seed, a.jobs, a.verbose)
 
 
@@ -179,7 +194,8 @@ def check_property(prop, tier, seed, jobs, verbose):
             checker_errors.append(f"{label}: {r['error'][-600:]}")
             continue
         if r["vacuous"]:
-            checker_errors.append(f"{label}: precondition unsatisfiable (vacuous contract)")
+            checker_errors.append(f"{label}: " + (r["vacuous"] if isinstance(r["vacuous"], str)
+                                                  else "precondition unsatisfiable (vacuous contract)"))
         if r["unsupported"]:
             undecided.append((r, label))
             continue
